@@ -27,10 +27,14 @@ def cases(tier):
             if tier == "quick" and p == 4 and name == "U4" and sum(m) % 2:
                 continue    # thin the largest family in the quick tier (every other multiplicity vector)
             out.append({"kind": "1d", "p": p, "pattern": name, "mults": m})
+    # extreme span ratios: last span of 2^-50, domain of length 1e-13, first span 1e-15
+    for p in range(0, 4 if tier == "quick" else 6):
+        for name, br, m in KV.kv_shapes(p, patterns=tuple(KV.EXTREME), maxmult=2):
+            out.append({"kind": "1d", "p": p, "pattern": name, "mults": m})
     if tier == "thorough":
         for p in range(7, 13):
             for name in ("U2", "G3", "G4"):
-                k = len(KV.PATTERNS[name]) - 2
+                k = len(KV.breaks_of(name)) - 2
                 for m in itertools.product((1, 2, p - 1, p), repeat=k):
                     out.append({"kind": "1d", "p": p, "pattern": name, "mults": list(m)})
     # tensor-product evaluators: pairs/triples of small knot vectors with different degrees
@@ -66,7 +70,7 @@ def _cmp(name, got, ref, probs, u=None, key=None, rtol=RTOL):
 def check_1d(case):
     from pyiga import bspline, bspline_cy, assemble_tools
     p, name, m = case["p"], case["pattern"], case["mults"]
-    br = KV.PATTERNS[name]
+    br = KV.breaks_of(name)
     kn = KV.knots_from(br, m, p)
     kv = bspline.KnotVector(kn.copy(), p)
     R = bsp.RefKV(kn, p)
@@ -188,7 +192,7 @@ def check_tp(case):
     d = len(axes)
     kvs_, Rs, pts = [], [], []
     for (p, name, m) in axes:
-        br = KV.PATTERNS[name]
+        br = KV.breaks_of(name)
         kn = KV.knots_from(br, m, p)
         kvs_.append(bspline.KnotVector(kn.copy(), p))
         Rs.append(bsp.RefKV(kn, p))
@@ -252,7 +256,7 @@ def run(ctx):
             if isinstance(res, par.Crash) else res[1]
         out.states += 1
         if case["kind"] == "1d":
-            br = KV.PATTERNS[case["pattern"]]
+            br = KV.breaks_of(case["pattern"])
             npts = len(KV.eval_points(br, case["p"], gauss=(case["p"] <= 6)))
             out.transitions += npts * (case["p"] + 3) * 8
             out.part("1d", knot_vectors=1, points=npts)
